@@ -407,7 +407,33 @@ func boundaryInstant(r *fw.Rand, loc *time.Location, y, m, d int) time.Time {
 	}
 }
 
-var boundaryNumbers = []string{"0", "1", "-1", "36", "36.5", "0.000001", "-0.000001", "10.50", "99999999999999999999", "0.1", "1000000", "-273.15", "2", "39"}
+var boundaryNumbers = []string{"0", "1", "-1", "36", "36.5", "0.000001", "-0.000001", "10.50", "99999999999999999999", "0.1", "1000000", "-273.15", "2", "39",
+	// numbers that differ from a "round" neighbour only far behind the decimal point, or by one unit
+	// in the last place at a large magnitude (what a flow computes: 1/3, 0.1+0.2 in binary, sums)
+	"0.3333333333333333", "0.333333", "0.3333334", "99.9999999", "100", "0.30000000000000004", "0.3", "1000000000000000001", "1000000000000000000",
+	"123456789.123456789", "0.0000001", "-0.0000004", "9007199254740993", "0.1234565", "2.5000000000000001", "-99.9999995", "0.000000000000000001"}
+
+// precisionNumber: a number with 7-18 decimal places, or a large integer with a non-zero last digit.
+func precisionNumber(r *fw.Rand) decimal.Decimal {
+	switch r.Intn(4) {
+	case 0:
+		// a quotient as the expression evaluator stores it
+		return decimal.NewFromInt(int64(r.Range(1, 50))).DivRound(decimal.NewFromInt(int64(fw.Pick(r, []int{3, 7, 9, 11, 13}))), int32(r.Range(7, 18)))
+	case 1:
+		// a round number plus or minus something tiny
+		base := decimal.RequireFromString(fw.Pick(r, []string{"0", "1", "100", "36.5", "-273.15", "0.5", "1000000"}))
+		tiny := decimal.New(int64(r.Range(1, 9)), int32(-r.Range(7, 18)))
+		if r.Bool() {
+			return base.Sub(tiny)
+		}
+		return base.Add(tiny)
+	case 2:
+		// integers beyond the precision of a float64
+		return decimal.New(1, int32(r.Range(16, 24))).Add(decimal.NewFromInt(int64(r.Range(1, 9))))
+	default:
+		return decimal.New(int64(r.Range(1, 999999999)), int32(-r.Range(7, 12)))
+	}
+}
 
 var contactNames = []string{"Bob Smith", "Ben Haggerty", "bob", "Émilie du Châtelet", "日本語 太郎", "O'Brien", "x", "Jim \"The Anvil\" Neidhart", "a(b) OR c", "ab", "Anne-Marie", " Padded ", "back\\slash name", "😀 smile", "İlker"}
 
@@ -451,12 +477,33 @@ func genContact(r *fw.Rand, loc *time.Location, ay, am, ad int) *contactModel {
 		var v fieldVal
 		switch f.Type {
 		case assets.FieldTypeText:
-			v.Text = fw.Pick(r, []string{"Male", "female", "x y", "O'Brien", "日本語", "a\"b", "1", "2020-01-01", "(x)", "ça va"})
+			switch f.Key {
+			// fields whose key is also an attribute / a scheme: values from the same pools as the
+			// attribute's, so that the two properties agree on some contacts and differ on most
+			case "name":
+				v.Text = fw.Pick(r, contactNames)
+			case "language":
+				v.Text = fw.Pick(r, []string{"eng", "fra", "spa", "kin"})
+			case "tel":
+				v.Text = fw.Pick(r, []string{"+12065551212", "+12065551313", "+250788123123", "+593979111222"})
+			default:
+				v.Text = fw.Pick(r, []string{"Male", "female", "x y", "O'Brien", "日本語", "a\"b", "1", "2020-01-01", "(x)", "ça va"})
+			}
 		case assets.FieldTypeNumber:
 			if r.Chance(0.1) {
 				v.Text = "n/a" // text only: no typed value
 			} else {
-				d := decimal.RequireFromString(fw.Pick(r, boundaryNumbers))
+				pool, generic := boundaryNumbers, true
+				switch f.Key {
+				case "tickets":
+					pool, generic = []string{"0", "1", "2", "3", "0.5"}, false
+				case "urn":
+					pool, generic = []string{"12345", "987654", "250788123123", "12065551212"}, false
+				}
+				d := decimal.RequireFromString(fw.Pick(r, pool))
+				if generic && r.Chance(0.25) {
+					d = precisionNumber(r)
+				}
 				v.Num = &d
 				v.Text = d.String()
 			}
